@@ -367,6 +367,22 @@ fn check_roundtrip<G: GraphLike, H: GraphLike + 'static>(
     obs.class_if(mono, "scalar:sqrt2-power-times-phase");
     obs.class_if(!mono, "scalar:general");
     scalars_match(&so, &sd, mono, shift).map_err(|e| format!("{name}: {e}"))?;
+    // a second round trip starting from the decoded diagram (decoded diagrams are diagrams too):
+    // phases are already within the exact class now, so everything must be preserved exactly
+    if !via_serde {
+        let text2 = guarded(&format!("{name}: encode_graph of the decoded diagram"), || quizx::json::encode_graph(&h))?
+            .map_err(|e| format!("{name}: encode_graph of the decoded diagram failed: {e}"))?;
+        let h2: H = guarded(&format!("{name}: decode_graph (second round trip)"), || quizx::json::decode_graph::<H>(&text2))?
+            .map_err(|e| format!("{name}: second decode_graph failed: {e}"))?;
+        let (s1, s2) = (sg_of(&h), sg_of(&h2));
+        match anchored_iso(&s1, &s2, &|i| s1.phase[i]) {
+            Ok(()) => {}
+            Err(e) if e == "SEARCH-BUDGET" => {}
+            Err(e) => return Err(format!("{name}: a second round trip starting from the decoded diagram does not preserve it: {e}")),
+        }
+        let sd2 = read_scalar_shifted(h2.scalar(), shift);
+        scalars_match(&sd, &sd2, is_mono(&sd), shift).map_err(|e| format!("{name}: second round trip: {e}"))?;
+    }
     // semantics (no H-boxes, phases within the exact class)
     if !has_hbox && c.scalar_pow.abs() <= 600 && d.verts.iter().all(|v| v.phase.1 <= 256) {
         if let (GraphTruth::Ok(t0), GraphTruth::Ok(t1)) = (graph_truth(&g), graph_truth(&h)) {
